@@ -250,7 +250,7 @@ class AbstractAst:
                 raise RTAMTException('{} is not a type.'.format(var_type))
             try:
                 var = class_()
-            except Exception as err:
+            except (Exception, SystemExit) as err:
                 raise RTAMTException('A variable of type {0} cannot be created: {1}'.format(var_type, err))
         return var
 
